@@ -697,6 +697,8 @@ def frames(ctx):
                                                  isinstance(s.value, ast.Constant))]
         idx = [i for i, s in enumerate(stmts) if 'reference_cs' in unparse(s)]
         ok = idx and (idx[0] == 0 if first else idx[-1] == len(stmts) - 1)
+        ok = ok and f'self.reference_cs.{fn.name}(rays)' in \
+            unparse(stmts[idx[0 if first else -1]])
         if ok:
             res.ok(f'{fn.qual}: reference frame applied '
                    f'{"first" if first else "last"}')
@@ -716,7 +718,54 @@ def frames(ctx):
         res.fail(ctx.finding('FRAME', tr, tr.node, 'translate does not add '
                              'its offsets componentwise',
                              construct='translate'))
-    # localize = translate(-origin) then rotations by -angle in order x,y,z
+    # localize = translate(-origin) then rotations by -angle about x, y, z in
+    # that order; globalize the exact reverse; each `if self.rA:` shortcut
+    # guards the rotation about the same axis by the same angle
+    want = {
+        'localize': [('translate', ['-self.x', '-self.y', '-self.z'], None),
+                     ('rotate_x', ['-self.rx'], 'self.rx'),
+                     ('rotate_y', ['-self.ry'], 'self.ry'),
+                     ('rotate_z', ['-self.rz'], 'self.rz')],
+        'globalize': [('rotate_z', ['self.rz'], 'self.rz'),
+                      ('rotate_y', ['self.ry'], 'self.ry'),
+                      ('rotate_x', ['self.rx'], 'self.rx'),
+                      ('translate', ['self.x', 'self.y', 'self.z'], None)],
+    }
+    for fn in (cs, gl):
+        seq = []
+
+        def walk(stmts, guard):
+            for st in stmts:
+                if isinstance(st, ast.If):
+                    g_ = unparse(st.test)
+                    if 'reference_cs' in g_:
+                        continue
+                    walk(st.body, g_ if guard is None else guard + ' and ' + g_)
+                    if st.orelse:
+                        walk(st.orelse, 'not ' + g_)
+                elif isinstance(st, ast.Expr) and isinstance(
+                        st.value, ast.Call) and isinstance(
+                        st.value.func, ast.Attribute) and \
+                        unparse(st.value.func.value) == 'rays':
+                    seq.append((st.value.func.attr,
+                                [unparse(a_) for a_ in st.value.args], guard))
+        walk(fn.node.body, None)
+        exp = want[fn.name]
+        ok = len(seq) == len(exp) and all(
+            a[0] == b[0] and a[1] == b[1] and (a[2] is None or a[2] == b[2])
+            for a, b in zip(seq, exp))
+        if ok:
+            res.ok(f'{fn.qual}: ' + ' -> '.join(
+                f'{n_}({", ".join(a_)})' for n_, a_, _ in seq))
+        else:
+            res.fail(ctx.finding(
+                'FRAME', fn, fn.node,
+                f'{fn.qual} performs ' + ' -> '.join(
+                    f'{n_}({", ".join(a_)})' + (f' [if {g_}]' if g_ else '')
+                    for n_, a_, g_ in seq) + '; expected ' + ' -> '.join(
+                    f'{n_}({", ".join(a_)})' + (f' [if {g_}]' if g_ else '')
+                    for n_, a_, g_ in exp),
+                construct=f'{fn.name} sequence'))
     return res
 
 
